@@ -104,11 +104,12 @@ const (
 	Heartbeat
 	UnknownEvent
 	UnknownStmt
+	Restart // the file ends without a ROTATE event (server stop or crash); the next file is announced only by the artificial rotate
 	NumUnitKinds
 )
 
 var unitNames = [...]string{"TxXID", "TxCommit", "TxRollback", "DDL", "AutoRows", "StmtDML", "Rotate",
-	"GTID", "AnonGTID", "PrevGTIDs", "Heartbeat", "UnknownEvent", "UnknownStmt"}
+	"GTID", "AnonGTID", "PrevGTIDs", "Heartbeat", "UnknownEvent", "UnknownStmt", "Restart"}
 
 func (k UnitKind) String() string {
 	if int(k) < len(unitNames) {
@@ -153,7 +154,7 @@ type Unit struct {
 type History struct {
 	FirstFile string
 	Units     []Unit
-	Cfgs      []*ev.Cfg // one per file (index = number of Rotate units before); the last is reused
+	Cfgs      []*ev.Cfg // one per file (index = number of Rotate / Restart units before); the last is reused
 	Bases     []uint32  // offset of the first event after the format description per file (0 = contiguous)
 	FDETS     uint32
 }
@@ -325,10 +326,14 @@ func (h *History) Build() *Layout {
 			f.Events = append(f.Events, LEvent{Start: off, End: off, Bytes: b, Unit: ui, Kind: "heartbeat", CommitOf: -1})
 		case Rotate:
 			add(u.EvTS, ev.Rotate, 0, ev.RotateBody(4, u.NextFile), "rotate", false)
+		case Restart:
+			if u.EvType == ev.Stop { // clean shutdown writes a STOP event; a crash writes nothing
+				add(u.EvTS, ev.Stop, 0, nil, "stop", false)
+			}
 		}
 		sp.End = off
 		l.Spans[ui] = sp
-		if u.Kind == Rotate {
+		if u.Kind == Rotate || u.Kind == Restart {
 			fileIdx++
 			f = newFile(u.NextFile)
 			off = f.FDEEnd
